@@ -925,23 +925,18 @@ def run_case(case):
         check(trig, op["pred"])
 
     if gm:
-        # gamma='mean' is resolved per training set inside a shared dict
-        # (root cause outside the wrapper): one signature per failure mode
+        # the speed-up cannot handle the symbolic bandwidth 'mean'
+        # (precompute hands it to pairwise_kernels): one signature for it;
+        # every other deviation keeps its own signature.
         seen, out = set(), []
         for v in viol:
-            if v.trigger == "state=init":
-                out.append(v)
-                continue
-            if v.kind.startswith(("exception", "non_termination")):
-                kind_ = v.kind
-            elif v.kind.startswith(("speedup_", "twin_")):
-                kind_ = "speedup_deviation"
+            if v.kind.startswith("exception:TypeError@utils.py:precompute"):
+                if v.kind not in seen:
+                    seen.add(v.kind)
+                    out.append(Violation(comp, v.kind, "gamma=mean",
+                                         f"[{v.trigger}] {v.detail}"))
             else:
-                kind_ = "refit_deviation"
-            if kind_ not in seen:
-                seen.add(kind_)
-                out.append(Violation(comp, kind_, "gamma=mean",
-                                     f"[{v.kind}|{v.trigger}] {v.detail}"))
+                out.append(v)
         viol = out
     nontrivial = nt_diverged or nt_override
     labels += [f"ops_fit={_bucket(n_fit)}", f"ops_partial_fit={_bucket(n_pfit)}",
